@@ -781,6 +781,7 @@ var c12Scenarios = []string{
 	"zero-bits", "future", "unordered-att", "unordered-fin", "period+2", "period-1", "period+1", "irrelevant", "irrelevant", "old-with-next",
 	"fin-branch-node", "fin-header-field", "next-branch-node", "next-key", "sig-g0", "sig-g1", "sig-wrong-msg", "sig-wrong-fork",
 	"sig-wrong-genesis", "signers-one-bit", "bit-flipped-after", "signers-other-committee", "att-field-after", "unpaired", "short-bits",
+	"period+1-current-committee", "bad-key-others-sign", "bad-key-not-participating",
 }
 
 // build the next step against the CURRENT store of the real client
@@ -828,7 +829,7 @@ func (g *c12Gen) nextStep() c12Step {
 		sigP = P + 2
 	case sc == "period-1" && P > 0:
 		sigP = P - 1
-	case sc == "period+1":
+	case sc == "period+1" || sc == "period+1-current-committee":
 		sigP = P + 1
 	case nextKnown && r.Intn(3) != 0:
 		sigP = P + 1
@@ -1000,6 +1001,33 @@ func (g *c12Gen) nextStep() c12Step {
 	// ---- signature
 	signer := g.commFor(sigP)
 	// the store may hold a variant of the chain's committee (one altered key): sign with the chain's keys
+	if sc == "period+1-current-committee" {
+		// one period beyond the store's, signed by the committee the store holds as CURRENT: acceptable only to a store that
+		// (wrongly) also keeps that committee as its next one
+		if hi := g.run.idxOf(st.CurrentSyncCommittee); hi >= 0 {
+			signer = hi
+		}
+	}
+	if sc == "bad-key-others-sign" || sc == "bad-key-not-participating" {
+		// the committee the store holds for the signature period has an undecodable / identity key: its bit is set (resp. cleared)
+		// and the signature is the aggregate of all the OTHER participants
+		held := st.CurrentSyncCommittee
+		if sigP != P {
+			held = st.NextSyncCommittee
+		}
+		if hi := g.run.idxOf(held); hi >= 0 && len(g.run.comms[hi].keys) == 512 && len(s.bits) == 64 {
+			for i, k := range g.run.comms[hi].keys {
+				if k < 0 {
+					if sc == "bad-key-others-sign" {
+						s.bits[i/8] |= 1 << (uint(i) % 8)
+					} else {
+						s.bits[i/8] &^= 1 << (uint(i) % 8)
+					}
+					signer = hi
+				}
+			}
+		}
+	}
 	s.sig = c12Sig{kind: "s", comm: signer, bits: append([]byte{}, s.bits...)}
 	s.sig.msg = g.signingRoot(&s.att, s.fork, g.run.genesis)
 	switch sc {
@@ -1373,7 +1401,8 @@ func c12Matrix(c *Ctx, keys *c12Keys) {
 				ok = s.truth == want && c12Popcount(s.bits)*3 >= 1024
 			}
 			if !ok {
-				panic(fmt.Sprintf("matrix: no %c%c %s step with truth %s", mc.mode, wf, mc.sc, want))
+				c.Count(fmt.Sprintf("matrix_skipped_%c%c_%s", mc.mode, wf, mc.sc))
+				continue
 			}
 			steps = append(steps, s.String())
 			truths = append(truths, s.truth)
@@ -1381,6 +1410,102 @@ func c12Matrix(c *Ctx, keys *c12Keys) {
 			c.Count(fmt.Sprintf("matrix_%c%c_%s", mc.mode, wf, mc.sc))
 		}
 		c.Emit("hist %d %s %s %s %s %s | ok %s", keys.seed, hx(gen[:]), run.commsString(), store0, strings.Join(steps, ";"), strings.Join(truths, ";"), strings.Join(obs, ";"))
+	}
+}
+
+// c12Scripts: two stateful shapes that random histories reach too rarely.
+//  A. a store that knows its next committee is rotated by a FINALITY-ONLY update (no next committee on the wire), then receives
+//     updates one further period ahead signed by the committee it now holds as current: the period rule must reject them, and
+//     the store must show no next committee after the rotation.
+//  B. the store's committee has one undecodable (resp. identity) key: an update whose bitmap claims that member while the
+//     aggregate is signed by all the others must be rejected; with that member's bit cleared the same update is valid.
+func c12Scripts(c *Ctx, keys *c12Keys) {
+	r := c.Rng
+	build := func(g *c12Gen, sc string, mode byte, accept func(s *c12Step) bool) (c12Step, bool) {
+		g.forceSc, g.forceMode, g.forceWf = sc, mode, "acd"[r.Intn(3)]
+		var s c12Step
+		for try := 0; try < 200; try++ {
+			s = g.nextStep()
+			s.force = false
+			if accept(&s) {
+				return s, true
+			}
+		}
+		return s, false
+	}
+	start := func(alter int) (*c12Gen, *c12Runner, uint64, common.Root) {
+		var gen common.Root
+		copy(gen[:], r.Bytes(32))
+		run := c12NewRunner(keys, gen)
+		g := &c12Gen{c: c, run: run, chain: map[uint64]int{}}
+		P0 := uint64(r.Intn(7))
+		slot0 := P0*c12SPP + uint64(100+r.Intn(c12SPP-3000))
+		cur := g.commFor(P0)
+		if alter != 0 {
+			k := append([]int{}, run.comms[cur].keys...)
+			k[r.Intn(512)] = alter
+			cur = run.addComm(k)
+		}
+		if o := run.execBoot(g.mkBoot(slot0, cur)); !strings.HasPrefix(o, "ok") {
+			panic("bootstrap of a scripted history failed: " + o)
+		}
+		return g, run, P0, gen
+	}
+	emit := func(g *c12Gen, run *c12Runner, gen common.Root, store0 string, steps, truths, obs []string) {
+		c.Emit("hist %d %s %s %s %s %s | ok %s", keys.seed, hx(gen[:]), run.commsString(), store0, strings.Join(steps, ";"), strings.Join(truths, ";"), strings.Join(obs, ";"))
+	}
+	// ---- A
+	{
+		g, run, P0, gen := start(0)
+		run.client.Store.NextSyncCommittee = run.comms[g.commFor(P0+1)].real
+		store0 := g.storeString()
+		obs := []string{run.digest()}
+		var steps, truths []string
+		add := func(s c12Step, tag string) {
+			steps = append(steps, s.String())
+			truths = append(truths, s.truth)
+			obs = append(obs, run.exec(&s))
+			c.Count("script_" + tag)
+		}
+		// signature slot = first slot of the next period, attested header = last slot of the store period: the committee is chosen
+		// by the SIGNATURE period (the next committee signs)
+		if bd, ok := build(g, "valid", 'O', func(s *c12Step) bool {
+			return s.truth == "-" && s.sigSlot == (P0+1)*c12SPP && s.att.slot/c12SPP == P0
+		}); ok {
+			add(bd, "signature_period_boundary")
+		}
+		rot, ok := build(g, "valid", 'F', func(s *c12Step) bool {
+			return s.truth == "-" && s.sigSlot/c12SPP == P0+1 && s.fin != nil && s.fin.slot/c12SPP == P0+1 && c12Popcount(s.bits)*3 >= 1024
+		})
+		if ok {
+			add(rot, "rotation_by_finality_update")
+			for _, m := range []byte("OFU") {
+				nx, _ := build(g, "period+1-current-committee", m, func(s *c12Step) bool {
+					return c12Popcount(s.bits)*3 >= 1024 && s.sigSlot <= s.now && !strings.ContainsAny(s.truth, "PFOIBCSUL")
+				})
+				add(nx, "two_periods_ahead_"+string(m))
+			}
+		}
+		emit(g, run, gen, store0, steps, truths, obs)
+	}
+	// ---- B
+	for _, alter := range []int{-2, -1} {
+		g, run, _, gen := start(alter)
+		store0 := g.storeString()
+		obs := []string{run.digest()}
+		var steps, truths []string
+		for _, sc := range []string{"bad-key-others-sign", "bad-key-not-participating", "bad-key-others-sign"} {
+			want := "K"
+			if sc == "bad-key-not-participating" {
+				want = "-"
+			}
+			s, _ := build(g, sc, "UFO"[r.Intn(3)], func(s *c12Step) bool { return s.truth == want && c12Popcount(s.bits)*3 >= 1024 })
+			steps = append(steps, s.String())
+			truths = append(truths, s.truth)
+			obs = append(obs, run.exec(&s))
+			c.Count(fmt.Sprintf("script_%s_%d", sc, alter))
+		}
+		emit(g, run, gen, store0, steps, truths, obs)
 	}
 }
 
@@ -1497,7 +1622,7 @@ func runC12(c *Ctx) {
 		return
 	}
 	keys := c12GenKeys(c.Seed)
-	nh, steps, nb := 18, 8, 12
+	nh, steps, nb := 15, 8, 12
 	if c.Tier == "thorough" {
 		nh, steps, nb = 150, 14, 150
 	}
@@ -1506,6 +1631,7 @@ func runC12(c *Ctx) {
 	}
 	c12BootCases(c, keys, nb)
 	c12Matrix(c, keys)
+	c12Scripts(c, keys)
 	for i := 0; i < nh; i++ {
 		c12History(c, keys, steps+c.Rng.Intn(5))
 	}
